@@ -10,6 +10,7 @@ DESC=$(echo "$DESC" | sed "s#$TMP/repo/##")
 ( cd "$TMP/repo" && go build ./... ) >/dev/null 2>&1 || { echo "$F $I nocompile - | $DESC"; exit 0; }
 ( cd "$TMP/repo" && go vet ./... ) >/dev/null 2>&1
 ( cd "$TMP/repo" && go test -vet=off -count=1 ./... ) >/dev/null 2>&1 || { echo "$F $I suite - | $DESC"; exit 0; }
-OUT=$(/verif/bin/finlint -repo "$TMP/repo" -verif /verif -property all -no-evidence 2>&1)
+OUT=$(${FINLINT:-/verif/bin/finlint} -repo "$TMP/repo" -verif /verif -property all -no-evidence 2>&1); RC=$?
+if [ $RC -ne 0 ] && [ $RC -ne 1 ]; then echo "$F $I CRASHED - | $DESC"; exit 0; fi
 PROPS=$(printf '%s\n' "$OUT" | grep '^VIOLATION' | sed 's/.*property=\([A-Z0-9]*\).*/\1/' | sort -u | tr '\n' ',' | sed 's/,$//')
 if [ -n "$PROPS" ]; then echo "$F $I DETECTED $PROPS | $DESC"; else echo "$F $I undetected - | $DESC"; fi
